@@ -262,7 +262,9 @@ Section WithHash.
     : outcome (hstatus * option rec * hstate) * list event * list bool :=
     let removed := s_value (zget (h_ent st) i) in
     let st1 := set_ent st (zset (h_ent st) i Tomb) in
-    let st2 := set_count st1 ((h_count st1 - 1) mod 2 ^ 64) in
+    (* --hash->count: zix_hash_erase must be given an iterator to a record (header), so count >= 1
+       by (H1) and the decrement cannot wrap; it is left unwrapped here *)
+    let st2 := set_count st1 (h_count st1 - 1) in
     if h_count st2 <? h_n st2 / 4 then
       let '(s, lg, o') := shrink st2 o in
       (match s with
